@@ -12,7 +12,7 @@
 (*   sub    \in {"output","mkdir","verify","template"}                     *)
 (*   format \in {"", "json","yaml","toml","bad"}                           *)
 (*   file   \in {"stdin","dash","existing","missing"}                      *)
-(*   doc    \in {"wf","malformed","empty","hostile"}  (hostile: a name     *)
+(*   doc    \in {"wf","malformed","empty","hostile","dot"} (hostile: a name *)
 (*            with '/': fine for output, invalid for mkdir/verify/dry-run) *)
 (*   stdout \in {"pipe","closed","full"}                                   *)
 (* "ExitZeroOnUsageError" \in Dev: main prints a non-ExitCoder error and   *)
@@ -46,6 +46,9 @@ LibResult(inv, m) ==
   CASE d.op = "template" -> "nil"
     [] inv.doc = "malformed" -> "err"
     [] inv.doc = "empty" -> IF d.op = "verify" THEN "nil" ELSE "nil"
+    \* "dot": a root named "." (the target directory itself) with the well-formed document's roots as its children
+    [] inv.doc = "dot" /\ d.op = "mkdir" -> IF inv.target = "" THEN "err" ELSE "nil"   \* "." exists unless the target itself is new
+    [] inv.doc = "dot" /\ d.op = "verify" -> IF m /\ ~d.strict THEN "nil" ELSE "err"    \* (strict: the file a/f.x made by mkdir -e .x is extra)
     [] d.op = "output" -> IF d.dry /\ inv.doc = "hostile" THEN "err" ELSE "nil"
     [] d.op = "mkdir"  -> IF inv.doc = "hostile" \/ m THEN "err" ELSE "nil"
     [] d.op = "verify" -> IF inv.doc = "hostile" \/ ~m THEN "err" ELSE "nil"
